@@ -60,6 +60,10 @@ class Findings:
                 literals = entry.get("class")
                 if literals is not None and set(literals) <= set(failure.get("features", [])):
                     return entry["id"]
+                # further shapes of input through which the same call site shows (each a list of literals)
+                for other in entry.get("class_also", []):
+                    if set(other) <= set(failure.get("features", [])):
+                        return entry["id"]
                 continue
             if case_key(failure) in self._cases[entry["id"]]:
                 return entry["id"]
